@@ -274,6 +274,15 @@ func Specials(prop, cls string) *hk.Result {
 		}
 		res.Outcome("special " + name)
 	}
+	// a []byte passed by value cannot be set either: it must not be forwarded in clear
+	count()
+	if out, err := mk().Process(ctx, &el.Event{Type: "t", Payload: []byte("CANARYTOPzq")}); cls == "leak" && err == nil && out != nil {
+		var sb strings.Builder
+		walkStrings(reflect.ValueOf(out.Payload), &sb, 0)
+		if strings.Contains(sb.String(), "CANARYTOPzq") {
+			fail("top-level []byte value", "an unsettable []byte payload was forwarded in clear without an error")
+		}
+	}
 	// a non-pointer string cannot be set: error, nothing forwarded
 	count()
 	if out, err := mk().Process(ctx, &el.Event{Type: "t", Payload: "CANARYTOPzq"}); cls == "leak" && (err == nil || out != nil) {
